@@ -78,6 +78,8 @@ class Ctx:
         `undecidable` this does not fail the check. Reserved for fine-grained
         clauses added on top of a property's core rules, where an unknown
         formulation is far more likely a refactoring than a defect."""
+        if os.environ.get("SA_STRICT_UNRECOGNISED"):
+            return self.undecidable(rule, site, "not applied: " + msg)
         self.ob(rule, site, True, "NOT DECIDED (idiom not recognised, rule "
                 "not applied): " + msg, key=key or f"{rule}:not-applied",
                 nontrivial=False)
